@@ -3,7 +3,11 @@
 not_applicable list). Run after editing checks.json."""
 import json, os, subprocess
 V = "/verif"
+import glob
 cfg = json.load(open(f"{V}/checks.json"))
+for f in sorted(glob.glob(f"{V}/harness/*/check.json")):
+    c = json.load(open(f))
+    cfg["checks"].setdefault(c["id"], c)
 props = [json.loads(l) for l in open(f"{V}/properties.jsonl")]
 hooks = []
 try:
